@@ -25,6 +25,10 @@ pub struct Sched {
     /// CLI: a stale temporary chunk file of this many bytes (left by an earlier failed run) sits at the temp path
     #[serde(default)]
     pub stale_tmp: Option<u32>,
+    /// library writer: this run is made by a freshly started process (the worker process has compressed many other cases,
+    /// with other codecs and levels, before this one: "every run" includes a run without that history)
+    #[serde(default)]
+    pub fresh_process: bool,
 }
 
 #[derive(Clone, Debug, Serialize, Deserialize)]
@@ -41,7 +45,7 @@ pub struct Case {
 }
 
 fn sched_strategy() -> impl Strategy<Value = Sched> {
-    (buffers_strategy(), l1::rt_shape_strategy(), read_script_strategy(), any::<bool>(), delay_strategy(), prop_oneof![3 => Just(None), 1 => (1u32..60_000).prop_map(Some)]).prop_map(|(buffers, rt, reads, stdin, delays, stale_tmp)| Sched { buffers, rt, reads, stdin, delays, stale_tmp })
+    (buffers_strategy(), l1::rt_shape_strategy(), read_script_strategy(), any::<bool>(), delay_strategy(), (prop_oneof![3 => Just(None), 1 => (1u32..60_000).prop_map(Some)], prop::bool::weighted(0.15))).prop_map(|(buffers, rt, reads, stdin, delays, (stale_tmp, fresh_process))| Sched { buffers, rt, reads, stdin, delays, stale_tmp, fresh_process })
 }
 
 fn describe_archive_diff(a: &[u8], b: &[u8]) -> String {
@@ -88,6 +92,8 @@ fn run_case(c: &Case, rec: &mut CaseRec) -> Result<(), String> {
                     return Err(e);
                 }
             }
+        } else if s.fresh_process {
+            l1::compress_lib_fresh_process(&worker_dir("C12"), &c.source, &cfg, &s.reads, &md)?
         } else {
             let rt = s.rt.build();
             rt.block_on(l1::compress_lib(source.clone(), &cfg, s.reads.clone(), &md))?
@@ -114,6 +120,7 @@ fn run_case(c: &Case, rec: &mut CaseRec) -> Result<(), String> {
     rec.class_if(c.runs.iter().any(|r| !r.delays.is_empty()), "delay_script");
     rec.class_if(c.cli && c.runs.iter().any(|r| r.stale_tmp.is_some()), "stale_temp_file_in_some_run");
     rec.class_if(md.len() >= 2, "two_or_more_metadata_entries");
+    rec.class_if(!c.cli && c.runs.iter().any(|r| r.fresh_process) && c.runs.iter().any(|r| !r.fresh_process), "lib_writer_in_a_fresh_process_vs_in_the_long_lived_worker");
     // skew: a chunk at least 64x larger than the median, followed by at least 4 chunks
     if nchunks >= 6 {
         let mut lens: Vec<usize> = model.iter().map(|m| m.len).collect();
@@ -195,6 +202,7 @@ fn skew_strategy() -> impl Strategy<Value = Case> {
                 stdin,
                 delays: vec![],
                 stale_tmp: None,
+                fresh_process: false,
             };
             let runs = vec![mk(1, false, 1, 1, false), mk(8, true, 4, 8, true), mk(64, true, 2, 8, false), mk(3, true, 3, 3, false)];
             Case { source, chunker, hash_len: 64, comp, cli, runs, metadata: vec![] }
@@ -207,7 +215,7 @@ impl Prop for C12 {
     }
     fn meta(&self, _tier: Tier) -> Meta {
         Meta {
-            rule: "cases = (source spec, options incl. 0-8 metadata entries, writer in {library, CLI}, 3-4 runs differing in buffered-chunks {1,2,3,8,64}, runtime shape, read fragmentation, file vs pipe delivery and injected syscall delay scripts). Oracle (metamorphic): all archives of one case are byte-identical. Variant 'skew' builds a slow chunk (64 KiB-400 KiB constant run cut at max) ahead of hundreds of few-byte chunks. Non-trivial = >=2 chunks, runs differ in at least one schedule parameter and at least one run has buffered-chunks >= 2; distinct by Blake2 of the canonical case.".into(),
+            rule: "cases = (source spec, options incl. 0-8 metadata entries, writer in {library, CLI}, 3-4 runs differing in buffered-chunks {1,2,3,8,64}, runtime shape, read fragmentation, file vs pipe delivery (stdin, -i /dev/stdin, a named pipe) and injected syscall delay scripts; 15 % of the library writer's runs are made by a freshly started helper process, the others by the long-lived worker process that has compressed hundreds of other cases with other codecs and levels before). Oracle (metamorphic): all archives of one case are byte-identical. Variant 'skew' builds a slow chunk (64 KiB-400 KiB constant run cut at max) ahead of hundreds of few-byte chunks. Non-trivial = >=2 chunks, runs differ in at least one schedule parameter and at least one run has buffered-chunks >= 2; distinct by Blake2 of the canonical case.".into(),
             assumptions: vec!["schedules are perturbed, not enumerated; library and CLI archives are not compared with each other (version string may legitimately differ)".into()],
             ..Meta::default()
         }
